@@ -186,7 +186,8 @@ func (vm *vm) run() error {
 				b, a := pop().(int), pop().(string)
 				push(strings.Repeat(a, b))
 
-			case instr == opEQ:
+			case instr == opEQ && !isBlock(peek(1)) && !isBlock(peek(0)):
+				// (a block read as a value holds a map and cannot be compared)
 				b, a := pop(), pop()
 				push(a == b)
 
